@@ -18,7 +18,7 @@ a holder or a positive debt; the debt equals the readers still to release).
 """
 import re
 
-from vf.cxx2c import Rewriter, attach_loop_contracts
+from vf.cxx2c import Rewriter, attach_loop_contracts, auto_helpers
 from vf.extract import ExtractionBreak, find_body, match_brace, read_source
 from vf.runner import Job
 
@@ -331,10 +331,23 @@ def jobs(ctx):
         return c
 
     def head(fifo, role_text):
-        return '#define FIFO %d\n' % fifo + COMMON + role_text
+        return '#define FIFO %d\n' % fifo + COMMON + role_text + '/*HELPERS*/\n'
+
+    KNOWN = set(SIG) | {'Submit', 'RunR', 'Run'}
+
+    def helper_rw(nm, text, refs):
+        t, _n = if_init(nm, text)
+        c = Rewriter('SharedMutexImpl::' + nm, pre=PRE, atomics=['_state', '_readers_wait'], refs=['curr'] + refs, methods=['Run', 'RunWriter', 'RunReaders', 'PassReaders', 'SlowUnlock', 'TryLockAwait'],
+                     nomembers=['_lock', '_readers']).rewrite(t)
+        c = re.sub(r'A_(\w+)\(&self->_readers_wait', r'A32_\1(&self->_readers_wait', c)
+        return c.replace('self->', 'M.')
 
     def add(name, fifo, body, src, enforce, replace=(), canaries=1, loops=False, entry='harness', expect=(r'postcondition',)):
-        out.append(Job('shared_mutex/%s.fifo%d' % (name, fifo), props, src, entry, enforce=enforce, replace=list(replace), funcs=[B[b] for b in body], canaries=canaries,
+        # private helpers of the class that the body calls and this job does not know are extracted with the same rules and verified inline (vf.cxx2c.auto_helpers)
+        defs, hb = auto_helpers(repo, F, WITHIN, src.split('/*HELPERS*/', 1)[-1], KNOWN, helper_rw, ctype=lambda t: 'Node*' if t.rstrip('*&') in ('Node', 'BaseCore', 'auto') and t[-1:] in '*&' else ('Node' if t in ('Node', 'BaseCore') else None))
+        src = src.replace('/*HELPERS*/', defs)
+        body = list(body)
+        out.append(Job('shared_mutex/%s.fifo%d' % (name, fifo), props, src, entry, enforce=enforce, replace=list(replace), funcs=[B[b] for b in body] + hb, canaries=canaries,
                        loop_contracts=loops, expect=list(expect), meta={'fn': name, 'fifo': fifo}, timeout=900))
 
     START = 'POOL_INIT(); env(); __CPROVER_assume(INV_A); g_runs = 0; g_must_run = 0; g_run_kind = 0;'
